@@ -832,7 +832,8 @@ def rule_task_only_in_run(m, rep, rid='R3'):
             continue
         Tb = None
         for bi, t in b.calls():
-            if callee_is(t, 'core::ops::function::Fn>::call', 'core::ops::function::FnMut>::call_mut', 'core::ops::function::FnOnce>::call_once'):
+            if callee_is(t, 'core::ops::function::Fn>::call', 'core::ops::function::FnMut>::call_mut', 'core::ops::function::FnOnce>::call_once') or \
+                    (getattr(m, 'task_trait', None) and t.get('callee_trait') == m.task_trait):
                 Tb = Tb or Terms(b)
                 ct = norm(Tb.call_term(bi))
                 if _path_has_field(ct[2][0], m.f_task):
